@@ -106,6 +106,19 @@ def run(rep, tier, seed, replay=None, proof_ok=True):
         results = pool.map(_job, [(n, t, seed) for n, t in cases], chunksize=2)
     model = common.Model()
     shown = 0
+    # defaults before non-defaults must be rejected (AssertionError), for every callable kind
+    gaps = ['class A { void f(int a = 1, int b); };', 'class A { A(int a = 1, int b); };',
+            'class A { static void f(int a = 1, int b, int c = 3); };', 'void f(double x = 1.0, int y);',
+            'namespace n { class A { void f(int a, int b = 2, int c); }; }']
+    for gtext in gaps:
+        r = ml.impl_matlab([gtext])
+        rep.hit(common.sha(gtext), True)
+        if r[0] == 'ok':
+            shown += 1
+            rep.violation({'kind': 'counterexample', 'what': 'a default before a non-default argument is accepted',
+                           'input': gtext, 'files': sorted(r[1])})
+        else:
+            rep.bump('gap_rejected_' + r[0])
     try:
         for name, text, boost, it, res in results:
             if it[0] != 'ok':
@@ -139,24 +152,35 @@ def run(rep, tier, seed, replay=None, proof_ok=True):
             rt = routine_texts(cpp)
             lines = m_lines(tree, 'mod')
             diffs = []
+            layout_only = 0
+            norm = lambda x: re.sub(r'\s+', ' ', x or '').strip()
             for i, rname, rtext, guard, call in table:
                 if '<TypeError>' in rtext or '<IndexError>' in rtext:
                     continue
                 got = rt.get(rname)
                 if got != rtext:
-                    diffs.append(('routine', rname, got, rtext))
+                    if norm(got) == norm(rtext):
+                        layout_only += 1
+                    else:
+                        diffs.append(('routine', rname, got, rtext))
                 if call:
                     g = lines.get(int(i))
-                    if g is None or g[1] != call or not g[0].endswith(guard) and g[0] != guard:
+                    if g is None or norm(g[1]) != norm(call) or not norm(g[0]).endswith(norm(guard)):
                         diffs.append(('m-site', i, g, (guard, call)))
+            if layout_only:
+                rep.bump('layout_only_differences', layout_only)
             if diffs:
                 rep.bump('model_differs')
                 if shown < 3:
                     shown += 1
                     d = diffs[0]
-                    rep.violation({'kind': 'broken-correspondence', 'what': 'per-overload texts differ from Matlab/Arity.v',
+                    # every token of a routine / guard / call line is within C06's statement and the model has no
+                    # recorded deviation here: a token-level difference on this input is the failing input
+                    rep.violation({'kind': 'counterexample',
+                                   'what': 'guard / unwrap / call / return of an overload differ from the specified ones '
+                                           '(Matlab/Arity.v)',
                                    'input': text, 'boost': boost, 'which': d[:2],
-                                   'impl': d[2], 'model': d[3], 'n_diffs': len(diffs)}, no_input=True)
+                                   'impl': d[2], 'expected': d[3], 'n_diffs': len(diffs)})
             else:
                 rep.bump('agree')
                 rep.sample({'input': text[:300], 'ids': len(table)}, cap=3)
